@@ -382,3 +382,48 @@ func VerifC41_hello_alpn() {
 	sc.ns = vrt.Range("nsuites", 1, vrt.Param("NS", 1))
 	runHelloC41(sc)
 }
+
+// ---------------------------------------------------------------------------------------------
+// TLS_FALLBACK_SCSV on the resumption path
+
+type cacheC41 struct{ entry []byte }
+
+func (c *cacheC41) Get(key string) ([]byte, bool)  { return c.entry, c.entry != nil }
+func (c *cacheC41) Put(key string, s []byte) error { return nil }
+
+// VerifC41_hello_resume_scsv: the client presents a session id for which the (fake) session cache
+// holds a session {vers symbolic, TLS_RSA_WITH_AES_128_CBC_SHA}, offers [that suite, one symbolic
+// suite], client version symbolic; server Max in {default, TLS1.2, TLS1.1}. Whether or not the
+// session is resumed, SCSV with a version below the server's highest must be refused.
+func VerifC41_hello_resume_scsv() {
+	cfg := &Config{Rand: zeroRandC41{}, SessionTicketsDisabled: true}
+	cfg.Certificates = make([]Certificate, 1)
+	cfg.MaxVersion = []uint16{0, VersionTLS12, VersionTLS11}[vrt.Choose("max", 3)]
+	lo, hi := effMinC41(cfg.MinVersion), effMaxC41(cfg.MaxVersion)
+	st := &sessionState{vers: vrt.U16("stVers"), cipherSuite: TLS_RSA_WITH_AES_128_CBC_SHA, masterSecret: []byte{1, 2}}
+	cfg.ServerSessionCache = &cacheC41{entry: st.marshal()}
+
+	ch := &clientHelloMsg{}
+	ch.vers = vrt.U16("clientVers")
+	ch.random = make([]byte, 32)
+	ch.sessionId = []byte{7}
+	ch.cipherSuites = []uint16{TLS_RSA_WITH_AES_128_CBC_SHA, vrt.U16("suite")}
+	ch.compressionMethods = []uint8{compressionNone}
+	clientVers := ch.vers
+	scsv := ch.cipherSuites[1] == TLS_FALLBACK_SCSV
+
+	c := &Conn{conn: &fakeConnC41{}, config: cfg}
+	c.hand.Write(ch.marshal())
+	hs := &serverHandshakeState{c: c}
+
+	vrt.Known("C41-fallback-scsv-default-maxversion", scsv && cfg.MaxVersion == 0 && clientVers < hi)
+	vrt.Known("C41-fallback-scsv-skipped-on-resumption", scsv && clientVers < hi && st.vers <= clientVers && st.vers >= lo)
+	isResume, err := hs.readClientHello()
+	if err != nil {
+		return
+	}
+	if isResume {
+		vrt.Cover("C41/resumed")
+	}
+	vrt.Assert(!(scsv && clientVers < hi), "C41/hello-fallback-scsv-refused")
+}
